@@ -274,29 +274,7 @@ def r2_offset_discipline(ctx, sym):
               isinstance(got, list) and len(got) == 3, 'R2', 'traceback:all-frames-fixed', ux, bt,
               "not every frame of the traceback is passed through _fix_frame_line exactly once (%d of 3)" % len(fixed),
               "some traceback lines are section-relative")
-    init = ux.func('ExpandedTraceback.__init__')
-    ctx.analysed_function(ux, init)
-    for fname, offsets, want in (('answer.py', {'answer.py': 10}, 14), ('answer.py', {}, 4),
-                                 ('helper.py', {'answer.py': 10}, 4)):
-        # the traceback entries are (filename, lineno, ...) summaries of where each frame *raised*
-        entries = [Obj('FrameSummary', filename='outer.py', lineno=1, __getitem__=None),
-                   Obj('FrameSummary', filename=fname, lineno=4)]
-        for e in entries:
-            e.attrs['method:__getitem__'] = (lambda ee: (lambda i: [ee.attrs['filename'], ee.attrs['lineno']][i]))(e)
-        tb = Obj('traceback-object', tb_lineno=4, tb_next=None,
-                 tb_frame=Obj('frame', f_lineno=99, f_code=Obj('code', co_filename=fname)))
-        me = symexec.self_obj(ux, 'ExpandedTraceback')
-        fd = symexec.new_fd(sym, ux, calls={'traceback.extract_tb': lambda t: list(entries) if t is tb else []})
-        _, raised = symexec.run(fd, init, [Obj('exception'), ('T', 'E', tb), False, [], offsets, [fname], ['a'], {}],
-                                bound_self=me, what='ExpandedTraceback.__init__')
-        ctx.check(raised is None and me.attrs.get('line_number') == want, 'R2',
-                  'traceback:line_number[%s,%r]' % (fname, offsets), ux, init,
-                  "an error raised on line 4 of %s (the frame has since moved on to line 99) with section offsets %r "
-                  "gets line_number %r, expected %d" % (fname, offsets, me.attrs.get('line_number'), want),
-                  "an error on file line 4 inside section 1 is located on line 3 by the runtime feedback; a failing "
-                  "statement inside try/finally is located on the cleanup line")
-        ctx.check(me.attrs.get('line_offsets') is offsets, 'R2', 'traceback:stores-offsets[%s,%r]' % (fname, offsets), ux,
-                  init, "line offsets are not kept by the traceback", "frames cannot be shifted")
+    traceback_line_rule(ctx, sym, 'R2')
     # sandbox: _capture_exception executed abstractly with marker objects
     sandbox_capture_rule(ctx, sym, 'R2')
 
@@ -355,27 +333,44 @@ def sandbox_capture_rule(ctx, sym, rule):
                   "(%d construction(s))" % len(ffs), "runtime error located on the wrong line")
 
 
-def line_number_provenance(ctx, ux, init, ln, rule):
-    """The raw line must be the traceback entry's own line (extract_tb / FrameSummary.lineno / tb_lineno): a frame's
-    f_lineno is wherever the frame is *now*, which differs once finally/except blocks have run."""
-    defs_i = {norm(n.targets[0]): n.value for n in body_walk(init) if isinstance(n, ast.Assign)}
-
-    def raw_sources(e, depth=0):
-        out = set()
-        for x in ast.walk(e):
-            if isinstance(x, ast.Attribute) and x.attr in ('f_lineno', 'tb_lineno', 'lineno'):
-                out.add(x.attr)
-            if isinstance(x, ast.Call) and call_name(x) == 'traceback.extract_tb':
-                out.add('extract_tb')
-            if isinstance(x, ast.Name) and x.id in defs_i and depth < 4 and defs_i[x.id] is not e:
-                out |= raw_sources(defs_i[x.id], depth + 1)
-        return out
-    srcs = raw_sources(ln[0].value)
-    ctx.check('f_lineno' not in srcs and bool(srcs & {'extract_tb', 'tb_lineno', 'lineno'}), rule,
-              'traceback:line_number-provenance', ux, ln[0],
-              "line_number is read from %s: a frame's f_lineno is the line the frame is executing now, not the line "
-              "that raised (they differ after a finally block or an except ...: raise handler ran)" % sorted(srcs),
-              "try:\n    x = 1/0\nfinally:\n    cleanup()   -> the runtime feedback is located on the cleanup line")
+def traceback_line_rule(ctx, sym, rule):
+    """ExpandedTraceback.__init__ executed abstractly on a deep model traceback: line_number is the raising line of the
+    innermost traceback entry (not the frame's current line, not an outer frame) plus the offset of that file."""
+    from .. import symexec
+    ux = ctx.repo.module(UEXC)
+    init = ux.func('ExpandedTraceback.__init__')
+    ctx.analysed_function(ux, init)
+    for fname, offsets, want in (('answer.py', {'answer.py': 10}, 14), ('answer.py', {}, 4),
+                                 ('helper.py', {'answer.py': 10}, 4)):
+        # the traceback entries are (filename, lineno, ...) summaries of where each frame *raised*
+        # (a deep one: eleven calling frames above the raising one, as in a recursive student function)
+        entries = [Obj('FrameSummary', filename='outer.py', lineno=1, __getitem__=None)] + \
+                  [Obj('FrameSummary', filename=fname, lineno=20 + i) for i in range(10)] + \
+                  [Obj('FrameSummary', filename=fname, lineno=4)]
+        for e in entries:
+            e.attrs['method:__getitem__'] = (lambda ee: (lambda i: [ee.attrs['filename'], ee.attrs['lineno']][i]))(e)
+        tb = Obj('traceback-object', tb_lineno=4, tb_next=None,
+                 tb_frame=Obj('frame', f_lineno=99, f_code=Obj('code', co_filename=fname)))
+        me = symexec.self_obj(ux, 'ExpandedTraceback')
+        def extract_tb(t, limit=None):
+            # CPython: a positive limit keeps the first (outermost) entries, a negative one the last
+            es = list(entries) if t is tb else []
+            if limit is None:
+                return es
+            if not isinstance(limit, int):
+                raise Raised('TypeError', 'limit must be an integer')
+            return es[:limit] if limit >= 0 else es[limit:]
+        fd = symexec.new_fd(sym, ux, calls={'traceback.extract_tb': extract_tb})
+        _, raised = symexec.run(fd, init, [Obj('exception'), ('T', 'E', tb), False, [], offsets, [fname], ['a'], {}],
+                                bound_self=me, what='ExpandedTraceback.__init__')
+        ctx.check(raised is None and me.attrs.get('line_number') == want, rule,
+                  'traceback:line_number[%s,%r]' % (fname, offsets), ux, init,
+                  "an error raised on line 4 of %s (the frame has since moved on to line 99) with section offsets %r "
+                  "gets line_number %r, expected %d" % (fname, offsets, me.attrs.get('line_number'), want),
+                  "an error on file line 4 inside section 1 is located on line 3 by the runtime feedback; a failing "
+                  "statement inside try/finally is located on the cleanup line")
+        ctx.check(me.attrs.get('line_offsets') is offsets, rule, 'traceback:stores-offsets[%s,%r]' % (fname, offsets), ux,
+                  init, "line offsets are not kept by the traceback", "frames cannot be shifted")
 
 
 def is_self_call_named(c, name):
